@@ -1014,3 +1014,682 @@ func TestVerifC12Cache(t *testing.T) {
 		}
 	})
 }
+
+
+// ---------------------------------------------------------------------------------------------- mode=sched: generation
+
+func c12Pri(r *verifh.Rng) string {
+	p := []string{"set", "move", "remove", "drain"}
+	for i := len(p) - 1; i > 0; i-- {
+		j := r.Intn(i + 1)
+		p[i], p[j] = p[j], p[i]
+	}
+	return strings.Join(p, ",")
+}
+
+// c12GenSchedWheel: timers of several keys due at the same and at neighbouring ticks, callbacks that stay inside
+// the callback (hold) over the following ticks / Drains, released later; Drain with more held callbacks than
+// drainWorkers, followed by new timers and a second Drain.
+func c12GenSchedWheel(r *verifh.Rng) verifh.Section {
+	n := r.Pick(1, 2, 3, 5, 8, 16)
+	interval := r.Pick(1, 7)
+	nkeys := r.Range(2, 8)
+	var ops []string
+	var armed []int
+	d := func(maxSteps int) int { return r.Range(1, maxSteps)*interval + r.Intn(interval) }
+	set := func(k, maxSteps int) { ops = append(ops, fmt.Sprintf("set %d %d %d", k, r.Intn(1000), d(maxSteps))) }
+	release := func() {
+		for _, k := range armed {
+			ops = append(ops, fmt.Sprintf("release %d", k))
+		}
+		armed = nil
+	}
+	for j := r.Range(4, verifh.Scale(30, 50)); j > 0; j-- {
+		k := r.Intn(nkeys)
+		switch x := r.Intn(100); {
+		case x < 30:
+			set(k, 3)
+		case x < 36:
+			set(k, 2*n+2)
+		case x < 42:
+			ops = append(ops, fmt.Sprintf("move %d %d", k, d(3)))
+		case x < 46:
+			ops = append(ops, fmt.Sprintf("remove %d", k))
+		case x < 49:
+			ops = append(ops, r.PickS("set nil 1 5", fmt.Sprintf("set %d 1 0", k), fmt.Sprintf("move %d -3", k), "remove nil",
+				fmt.Sprintf("move %d %d", k, r.Range(1, interval))))
+		case x < 58 && len(armed) == 0:
+			// several keys due at one tick, one of their callbacks held; more due at the following ticks
+			batch := r.Range(2, 4)
+			steps := r.Range(1, 2)
+			for i := 0; i < batch; i++ {
+				ops = append(ops, fmt.Sprintf("set %d %d %d", (k+i)%nkeys, r.Intn(1000), steps*interval))
+			}
+			for i := r.Range(1, 2); i > 0; i-- {
+				h := (k + r.Intn(batch)) % nkeys
+				ops = append(ops, fmt.Sprintf("hold %d", h))
+				armed = append(armed, h)
+			}
+			for i := r.Range(1, 4); i > 0; i-- {
+				ops = append(ops, fmt.Sprintf("set %d %d %d", 50+r.Intn(6), r.Intn(1000), (steps+r.Range(1, 2))*interval))
+			}
+			for i := steps + r.Range(0, 2); i > 0; i-- {
+				ops = append(ops, "tick")
+			}
+			if r.Chance(1, 3) {
+				ops = append(ops, "drain")
+			}
+			if r.Chance(2, 3) {
+				release()
+			}
+		case x < 62 && len(armed) == 0:
+			// Drain with more held callbacks than drainWorkers; new timers and a second Drain meanwhile
+			// (all of them held: the hand-off goroutine is blocked in Schedule with tasks left over when the second,
+			// possibly larger, Drain collects its own)
+			m := r.Pick(3, 8, 9, 12, 14)
+			all := r.Bool()
+			for i := 0; i < m; i++ {
+				ops = append(ops, fmt.Sprintf("set %d %d %d", 100+i, r.Intn(1000), d(2*n+2)))
+				if all || r.Chance(3, 4) {
+					ops = append(ops, fmt.Sprintf("hold %d", 100+i))
+					armed = append(armed, 100+i)
+				}
+			}
+			ops = append(ops, "drain")
+			for i := r.Pick(0, 1, 3, 10, 13, 16); i > 0; i-- {
+				ops = append(ops, fmt.Sprintf("set %d %d %d", 300+i, r.Intn(1000), d(2*n+2)))
+			}
+			ops = append(ops, r.PickS("drain", "drain", "tick"))
+			release()
+		case x < 66 && len(armed) > 0:
+			release()
+		case x < 69:
+			// the next callback of the key panics (with an error / another value): the other callbacks of its tick or
+			// Drain are still delivered
+			ops = append(ops, fmt.Sprintf("boom %d %s", k, r.PickS("err", "str")))
+			set(k, 2)
+			if r.Bool() {
+				set((k+1)%nkeys, 2)
+			}
+		case x < 70:
+			ops = append(ops, "drain")
+		default:
+			ops = append(ops, "tick")
+		}
+	}
+	release()
+	for i := r.Pick(1, 3, n+1); i > 0; i-- {
+		ops = append(ops, "tick")
+	}
+	return verifh.Section{Cfg: fmt.Sprintf("n=%d interval=%d mode=sched client=wheel pri=%s", n, interval, c12Pri(r)), Ops: ops}
+}
+
+// c12GenSchedCache: the real Cache with and without WithLimit: evictions by the LRU limit (caused by Set,
+// SetWithExpire and Take on another key), the evicted / deleted / expired key used again right afterwards,
+// Get moving a key to the front of the LRU list, every outcome of Take's fetch function.
+func c12GenSchedCache(r *verifh.Rng) verifh.Section {
+	const sec = 1000000000
+	limit := r.Pick(0, 1, 1, 2, 2, 3, -1, 1, 2)
+	expire := r.Pick(1, 2, 3, 5) * sec
+	if r.Chance(1, 12) {
+		expire = r.Pick(0, -sec, sec/2)
+	}
+	nkeys := r.Range(2, 5)
+	if limit > 0 {
+		nkeys = limit + r.Range(1, 2)
+	}
+	var ops []string
+	last := 0
+	exp := func() int {
+		switch r.Intn(8) {
+		case 0:
+			return r.Pick(1, sec/2, sec-1, 0, -1)
+		case 1:
+			return r.Pick(299, 300, 301) * sec
+		default:
+			return r.Range(1, 4)*sec + r.Pick(0, 0, r.Intn(sec))
+		}
+	}
+	for j := r.Range(5, verifh.Scale(40, 60)); j > 0; j-- {
+		k := r.Intn(nkeys)
+		if r.Chance(1, 4) {
+			k = last // the key of the previous operation again (the one just evicted is next to it)
+		}
+		if r.Chance(1, 4) {
+			k = (last + 1) % nkeys
+		}
+		last = k
+		switch x := r.Intn(20); {
+		case x < 6:
+			ops = append(ops, fmt.Sprintf("cset %d %d %d", k, r.Intn(1000), exp()))
+		case x < 9:
+			ops = append(ops, fmt.Sprintf("cput %d %d", k, r.Intn(1000)))
+		case x < 11:
+			ops = append(ops, fmt.Sprintf("cdel %d", k))
+		case x < 13:
+			ops = append(ops, fmt.Sprintf("cget %d", k))
+		case x < 16:
+			ops = append(ops, fmt.Sprintf("ctake %d %d %s", k, r.Intn(1000), r.PickS("ok", "ok", "ok", "err", "tnil", "panic", "panicerr", "goexit")))
+		default:
+			for i := r.Pick(1, 1, 2, 3); i > 0; i-- {
+				ops = append(ops, "tick")
+			}
+		}
+	}
+	for i := r.Pick(1, 6); i > 0; i-- {
+		ops = append(ops, "tick")
+	}
+	opt := fmt.Sprintf(" limit=%d", limit)
+	if limit == 0 && r.Bool() {
+		opt = "" // no WithLimit option at all
+	}
+	if r.Chance(1, 3) {
+		if r.Bool() {
+			opt += " name=c12" // WithName, before or after WithLimit makes no difference: options are applied in order
+		} else {
+			opt = " name=c12" + opt
+		}
+	}
+	return verifh.Section{Cfg: fmt.Sprintf("n=300 interval=%d mode=sched client=cache%s expire=%d pri=%s", sec, opt, expire, c12Pri(r)), Ops: ops}
+}
+
+func c12GenSched(r *verifh.Rng) []verifh.Section {
+	var secs []verifh.Section
+	// every NewCache leaves its statLoop goroutine behind and the goroutine dump grows with it: fewer cache sections
+	for i := verifh.Scale(60, 500); i > 0; i-- {
+		secs = append(secs, c12GenSchedWheel(r))
+	}
+	for i := verifh.Scale(60, 250); i > 0; i-- {
+		secs = append(secs, c12GenSchedCache(r))
+	}
+	return secs
+}
+
+// ---------------------------------------------------------------------------------------------- mode=sched
+//
+// TestVerifC12Sched: the HARNESS is the wheel's run loop. The wheel is built by the real constructor (for
+// client=cache by the real NewCache), its own run loop is stopped, and a copy of it with a fresh stopChannel is
+// served by the harness: whenever every other goroutine of the process is blocked (read off the goroutine dump,
+// no wall clock involved), the harness receives ONE of the requests that are pending on the wheel's channels, in
+// the priority order of the section (`pri=`: any order is one that the `select` of run may pick), and calls the
+// handler that run calls for it. It stops receiving as soon as the client's call has returned and no callback is
+// running any more (a run loop that is scheduled late); what is then still blocked inside a public method of
+// the wheel was detached from the call that issued it (`detached=N`) and competes with the requests of the
+// following operations. Ticks are handler calls (onTick), after the requests that are still pending.
+//
+//	client=wheel  set/move/remove/drain through the public API, tick, and
+//	              hold <k>      the next callback (execute or Drain) of key k blocks until `release <k>`
+//	              boom <k> err|str  the next callback of key k panics with an error value / a string
+//	              ltick         a tick whose callbacks' requests are left pending (replays only, never generated)
+//	              release <k>   while a callback is blocked nothing that was handed to a callback is printed
+//	                            (`held`); everything is printed by the operation after which none is blocked
+//	client=cache  cset/cput/cdel/cget/ctake/tick on the real Cache built with WithLimit(limit) (limit=0: no option)
+//	              ctake <k> <v> <outcome of fetch: ok err tnil panic panicerr goexit>
+//
+// Observation: result tokens, rq=<requests in the order the loop received them; sorted when callbacks issue them>,
+// the k:v pairs handed to callbacks, held, has=<keys in data>, detached=<n>.
+
+var c12StackBuf = make([]byte, 1<<16)
+
+// c12Goroutines returns the dump of all goroutines, the caller's first.
+func c12Goroutines() []string {
+	for {
+		n := runtime.Stack(c12StackBuf, true)
+		if n < len(c12StackBuf) {
+			return strings.Split(strings.TrimSpace(string(c12StackBuf[:n])), "\n\n")
+		}
+		c12StackBuf = make([]byte, 2*len(c12StackBuf))
+	}
+}
+
+func c12GState(g string) string {
+	i, j := strings.IndexByte(g, '['), strings.IndexByte(g, ']')
+	if i < 0 || j < i {
+		return "running"
+	}
+	st := g[i+1 : j]
+	if k := strings.IndexByte(st, ','); k >= 0 {
+		st = st[:k]
+	}
+	return st
+}
+
+func c12Busy(g string) bool {
+	switch c12GState(g) {
+	case "running", "runnable", "preempted", "copystack", "waiting", "dead", "idle":
+		return true
+	case "syscall":
+		return !strings.Contains(g, "os/signal.")
+	}
+	return strings.HasPrefix(c12GState(g), "GC") // GC assist wait …: goes on by itself
+}
+
+// c12Quiesce returns once every goroutine but the caller is blocked.
+func c12Quiesce() bool {
+	deadline := time.Now().Add(10 * time.Second)
+	for i := 0; ; i++ {
+		runtime.Gosched()
+		busy := false
+		for _, g := range c12Goroutines()[1:] {
+			if c12Busy(g) {
+				busy = true
+				break
+			}
+		}
+		if !busy {
+			return true
+		}
+		if i > 100 {
+			time.Sleep(20 * time.Microsecond)
+		}
+		if i%64 == 63 && time.Now().After(deadline) {
+			return false
+		}
+	}
+}
+
+// c12InWheelAPI counts the goroutines blocked inside a public method of the wheel.
+func c12InWheelAPI() int {
+	n := 0
+	for _, g := range c12Goroutines()[1:] {
+		if c12GState(g) != "select" {
+			continue
+		}
+		for _, m := range []string{"SetTimer", "MoveTimer", "RemoveTimer", "Drain"} {
+			if strings.Contains(g, "collection.(*TimingWheel)."+m+"(") {
+				n++
+				break
+			}
+		}
+	}
+	return n
+}
+
+type c12HoldSink struct {
+	mu      sync.Mutex
+	fired   []string
+	holds   map[string]chan struct{} // armed, not reached yet
+	holding map[string]chan struct{} // a callback is blocked on it
+	active  int                      // callbacks that have been entered and have not returned
+	booms   map[string]string        // key -> the next callback of the key panics: "err" with an error value, "str" with a string
+	after   func(k, v any)
+}
+
+func (s *c12HoldSink) exec(k, v any) {
+	ks := fmt.Sprint(k)
+	s.mu.Lock()
+	s.active++
+	s.fired = append(s.fired, fmt.Sprintf("%v:%v", k, v))
+	ch := s.holds[ks]
+	if ch != nil {
+		delete(s.holds, ks)
+		s.holding[ks] = ch
+	}
+	boom := s.booms[ks]
+	delete(s.booms, ks)
+	s.mu.Unlock()
+	if ch != nil {
+		<-ch
+	}
+	defer func() {
+		s.mu.Lock()
+		s.active--
+		s.mu.Unlock()
+	}()
+	if s.after != nil {
+		s.after(k, v)
+	}
+	switch boom {
+	case "err":
+		panic(fmt.Errorf("c12: callback of key %s panics with an error value", ks))
+	case "str":
+		panic("c12: callback of key " + ks + " panics with a string")
+	}
+}
+
+func (s *c12HoldSink) counts() (active, blocked int) {
+	s.mu.Lock()
+	defer s.mu.Unlock()
+	return s.active, len(s.holding)
+}
+
+type c12Sched struct {
+	tw   *TimingWheel
+	pri  []string
+	rq   []string
+	sink *c12HoldSink
+	hung bool
+}
+
+// poll receives one pending request, by priority, and handles it the way run does.
+func (s *c12Sched) poll() bool {
+	for _, p := range s.pri {
+		switch p {
+		case "set":
+			select {
+			case task := <-s.tw.setChannel:
+				s.rq = append(s.rq, fmt.Sprintf("set:%v:%v:%d", task.key, task.value, int64(task.delay)))
+				s.tw.setTask(&task)
+				return true
+			default:
+			}
+		case "move":
+			select {
+			case task := <-s.tw.moveChannel:
+				s.rq = append(s.rq, fmt.Sprintf("move:%v:%d", task.key, int64(task.delay)))
+				s.tw.moveTask(task)
+				return true
+			default:
+			}
+		case "remove":
+			select {
+			case key := <-s.tw.removeChannel:
+				s.rq = append(s.rq, fmt.Sprintf("remove:%v", key))
+				s.tw.removeTask(key)
+				return true
+			default:
+			}
+		case "drain":
+			select {
+			case fn := <-s.tw.drainChannel:
+				s.rq = append(s.rq, "drain")
+				s.tw.drainAll(fn)
+				return true
+			default:
+			}
+		}
+	}
+	return false
+}
+
+// serve is the run loop for one operation of the client: `returned` says whether the client's call is over.
+func (s *c12Sched) serve(returned func() bool) string {
+	for {
+		if !c12Quiesce() {
+			s.hung = true
+			return "TIMEOUT-quiesce"
+		}
+		active, _ := s.sink.counts()
+		if returned() && active == 0 {
+			return ""
+		}
+		if !s.poll() {
+			if !returned() {
+				s.hung = true
+				return "BLOCKED"
+			}
+			return ""
+		}
+	}
+}
+
+// call runs f as the client's call on a goroutine of its own and serves it. outcome: "" returned, "panic", "goexit".
+func (s *c12Sched) call(f func()) (note, outcome string) {
+	done := make(chan string, 1)
+	go func() {
+		res := "goexit"
+		defer func() {
+			if p := recover(); p != nil {
+				res = "panic"
+			}
+			done <- res
+		}()
+		f()
+		res = ""
+	}()
+	got := false
+	note = s.serve(func() bool {
+		if !got {
+			select {
+			case outcome = <-done:
+				got = true
+			default:
+			}
+		}
+		return got
+	})
+	return note, outcome
+}
+
+func c12SchedWheel(orig *TimingWheel, exec Execute) *TimingWheel {
+	orig.Stop()
+	tw := *orig // every field as the constructor set it …
+	tw.stopChannel = make(chan struct{}) // … but a stop channel that is open, and no run loop
+	tw.execute = exec
+	return &tw
+}
+
+type c12TypedErr struct{}
+
+func (*c12TypedErr) Error() string { return "typed" }
+
+func TestVerifC12Sched(t *testing.T) {
+	secs := verifh.Sections(c12GenSched)
+	verifh.Run(t, secs, func(cfg verifh.Cfg) (func(op []string) string, func()) {
+		sink := &c12HoldSink{holds: map[string]chan struct{}{}, holding: map[string]chan struct{}{}, booms: map[string]string{}}
+		s := &c12Sched{sink: sink, pri: strings.Split(cfg.Str("pri", "set,move,remove,drain"), ",")}
+		var c *Cache
+		if cfg.Str("client", "wheel") == "cache" {
+			var opts []CacheOption
+			if _, ok := cfg["limit"]; ok {
+				opts = append(opts, WithLimit(cfg.Int("limit", 0))) // also 0 and negative limits: WithLimit ignores them
+			}
+			if name := cfg.Str("name", ""); name != "" {
+				opts = append(opts, WithName(name))
+			}
+			var err error
+			c, err = NewCache(time.Duration(verifh.Atoi64(cfg.Str("expire", "1000000000"))), opts...)
+			if err != nil {
+				panic(err)
+			}
+			sink.after = c.timingWheel.execute
+			s.tw = c12SchedWheel(c.timingWheel, sink.exec)
+			c.timingWheel = s.tw
+			c.unstableExpiry = mathx.NewUnstable(0)
+		} else {
+			tw, err := NewTimingWheelWithTicker(time.Duration(cfg.Int("interval", 1)), cfg.Int("n", 1), sink.exec,
+				&c12Ticker{c: make(chan time.Time)})
+			if err != nil {
+				panic(err)
+			}
+			s.tw = c12SchedWheel(tw, sink.exec)
+		}
+		if !c12Quiesce() {
+			panic("the wheel's own run loop did not return after Stop")
+		}
+		step := func(op []string) string {
+			if s.hung {
+				return "TIMEOUT-skipped"
+			}
+			s.rq = nil
+			var res []string
+			var note, outcome string
+			errTok := func(err error) {
+				if err != nil {
+					res = append(res, c12Err(err))
+				}
+			}
+			sortRq := false
+			switch {
+			case op[0] == "hold" && len(op) == 2:
+				if _, blocked := sink.counts(); blocked > 0 {
+					return "busy"
+				}
+				sink.mu.Lock()
+				if sink.holds[op[1]] == nil {
+					sink.holds[op[1]] = make(chan struct{})
+				}
+				sink.mu.Unlock()
+				return "armed"
+			case op[0] == "boom" && len(op) == 3 && (op[2] == "err" || op[2] == "str"):
+				sink.mu.Lock()
+				sink.booms[op[1]] = op[2]
+				sink.mu.Unlock()
+				return "armed"
+			case op[0] == "release" && len(op) == 2:
+				sink.mu.Lock()
+				if ch := sink.holding[op[1]]; ch != nil {
+					delete(sink.holding, op[1])
+					close(ch)
+				}
+				delete(sink.holds, op[1])
+				sink.mu.Unlock()
+				sortRq = true
+				note = s.serve(func() bool { return true })
+			case op[0] == "ltick" && len(op) == 1:
+				// a tick after which the run loop is scheduled late: the callbacks start, their requests stay pending and
+				// compete with the requests of the next operation (never generated, see props/C12.json level_note; for replays)
+				for s.poll() {
+				}
+				s.tw.onTick()
+				if !c12Quiesce() {
+					s.hung = true
+					return "TIMEOUT-quiesce"
+				}
+				sink.mu.Lock()
+				out := append([]string{}, sink.fired...)
+				sink.fired = nil
+				sink.mu.Unlock()
+				sort.Slice(out, func(i, j int) bool { return c12Less(out[i], out[j]) })
+				return strings.TrimSpace("lazy " + strings.Join(out, " "))
+			case op[0] == "tick" && len(op) == 1:
+				sortRq = true
+				for s.poll() { // requests that are still pending from earlier operations
+				}
+				s.tw.onTick()
+				note = s.serve(func() bool { return true })
+			case c == nil && op[0] == "set" && len(op) == 4:
+				var err error
+				note, outcome = s.call(func() {
+					err = s.tw.SetTimer(c12Key(op[1]), verifh.Atoi(op[2]), time.Duration(verifh.Atoi(op[3])))
+				})
+				errTok(err)
+			case c == nil && op[0] == "move" && len(op) == 3:
+				var err error
+				note, outcome = s.call(func() { err = s.tw.MoveTimer(c12Key(op[1]), time.Duration(verifh.Atoi(op[2]))) })
+				errTok(err)
+			case c == nil && op[0] == "remove" && len(op) == 2:
+				var err error
+				note, outcome = s.call(func() { err = s.tw.RemoveTimer(c12Key(op[1])) })
+				errTok(err)
+			case c == nil && op[0] == "drain" && len(op) == 1:
+				var err error
+				sortRq = true
+				note, outcome = s.call(func() { err = s.tw.Drain(sink.exec) })
+				errTok(err)
+			case c != nil && op[0] == "cset" && len(op) == 4:
+				note, outcome = s.call(func() { c.SetWithExpire(op[1], verifh.Atoi(op[2]), time.Duration(verifh.Atoi64(op[3]))) })
+			case c != nil && op[0] == "cput" && len(op) == 3:
+				note, outcome = s.call(func() { c.Set(op[1], verifh.Atoi(op[2])) })
+			case c != nil && op[0] == "cdel" && len(op) == 2:
+				note, outcome = s.call(func() { c.Del(op[1]) })
+			case c != nil && op[0] == "cget" && len(op) == 2:
+				var v any
+				var ok bool
+				note, outcome = s.call(func() { v, ok = c.Get(op[1]) })
+				if ok {
+					res = append(res, fmt.Sprintf("get=%v", v))
+				} else {
+					res = append(res, "get=miss")
+				}
+			case c != nil && op[0] == "ctake" && len(op) == 4:
+				var v any
+				var err error
+				fetched := false
+				note, outcome = s.call(func() {
+					v, err = c.Take(op[1], func() (any, error) {
+						fetched = true
+						switch op[3] {
+						case "ok":
+							return verifh.Atoi(op[2]), nil
+						case "err":
+							return nil, fmt.Errorf("fetch failed")
+						case "tnil":
+							return verifh.Atoi(op[2]), (*c12TypedErr)(nil)
+						case "panic":
+							panic("fetch panics with a string")
+						case "panicerr":
+							panic(fmt.Errorf("fetch panics with an error"))
+						case "goexit":
+							runtime.Goexit()
+						}
+						panic("verifh: bad fetch outcome " + op[3])
+					})
+				})
+				switch {
+				case outcome != "":
+					res = append(res, "take="+outcome)
+				case err != nil:
+					res = append(res, "take=err")
+				case fetched:
+					res = append(res, fmt.Sprintf("take=fresh:%v", v))
+				default:
+					res = append(res, fmt.Sprintf("take=hit:%v", v))
+				}
+				outcome = ""
+			default:
+				return "bad-op"
+			}
+			if note != "" {
+				return note
+			}
+			if outcome != "" {
+				res = append(res, "call="+outcome)
+			}
+			if len(s.rq) > 0 {
+				if sortRq {
+					sort.Strings(s.rq)
+				}
+				res = append(res, "rq="+strings.Join(s.rq, ","))
+			}
+			if _, blocked := sink.counts(); blocked > 0 {
+				res = append(res, "held")
+			} else {
+				sink.mu.Lock()
+				out := sink.fired
+				sink.fired = nil
+				sink.mu.Unlock()
+				sort.Slice(out, func(i, j int) bool { return c12Less(out[i], out[j]) })
+				res = append(res, out...)
+			}
+			if c != nil {
+				c.lock.Lock()
+				var keys []int
+				for k := range c.data {
+					n, _ := strconv.Atoi(k)
+					keys = append(keys, n)
+				}
+				c.lock.Unlock()
+				sort.Ints(keys)
+				has := "-"
+				if len(keys) > 0 {
+					ss := make([]string, len(keys))
+					for i, k := range keys {
+						ss[i] = strconv.Itoa(k)
+					}
+					has = strings.Join(ss, ",")
+				}
+				res = append(res, "has="+has)
+			}
+			if d := c12InWheelAPI(); d > 0 {
+				res = append(res, fmt.Sprintf("detached=%d", d))
+			}
+			if len(res) == 0 {
+				return "-"
+			}
+			return strings.Join(res, " ")
+		}
+		return step, func() {
+			// let go of everything that is still blocked on the harness or on the wheel
+			sink.mu.Lock()
+			for k, ch := range sink.holding {
+				close(ch)
+				delete(sink.holding, k)
+			}
+			sink.holds = map[string]chan struct{}{}
+			sink.mu.Unlock()
+			s.tw.Stop()
+			c12Quiesce()
+		}
+	})
+}
